@@ -303,6 +303,10 @@ def _check_normalize(repo, rep):
 
 _S = "svg"
 VARIANTS = [
+    Variant("<use> copies take the fill of the group the target sits in",
+            [Edit(_S, "SVG._resolve_use", "                new_el = copy.deepcopy(target)\n",
+                  "                new_el = copy.deepcopy(target)\n                if target.getparent() is not None and \"fill\" in target.getparent().attrib and \"fill\" not in new_el.attrib:\n                    new_el.attrib[\"fill\"] = target.getparent().attrib[\"fill\"]\n")],
+            [("R-CASE.group-retention", "_resolve_use")]),
     Variant("group transform applied before the child's own", [Edit(_S, "_inherit_matrix_multiply", "(Affine2D.fromstring(child.attrib[attr_name]), transform)", "(transform, Affine2D.fromstring(child.attrib[attr_name]))")],
             [("R-TABLE.inheritance", "_INHERIT_ATTRIB_HANDLERS")]),
     Variant("child transform replaces the group's", [Edit(_S, "_inherit_matrix_multiply", "(Affine2D.fromstring(child.attrib[attr_name]), transform)", "(Affine2D.fromstring(child.attrib[attr_name]),)")],
